@@ -187,7 +187,8 @@ func genC06(r *rand.Rand, tier string, idx int) *World {
 		AutoPauseEnabled: bptr(chance(r, 0.75)), AutoPauseMaxRestarts: i32(apMax), MaxSlowStartDuration: pick(r, "", "1m", "5m"),
 		AutoFailEnabled: bptr(chance(r, 0.75)), AutoFailMaxRestarts: i32(afMax), MaxRestartsDuration: pick(r, "", "2m", "10m"), CanaryTimeout: pick(r, "", "", "11m", "20m"),
 	}
-	e := &EDSDef{NS: "ns1", Name: "foo", Initial: "A", Templates: map[string]*TemplateDef{"A": {Letter: "A"}, "B": {Letter: "B"}}}
+	side := chance(r, 0.4)
+	e := &EDSDef{NS: "ns1", Name: "foo", Initial: "A", Templates: map[string]*TemplateDef{"A": {Letter: "A", Side: side}, "B": {Letter: "B", Side: side}}}
 	e.Strategy = StrategyDef{ReconcileFrequency: "10s", Canary: can}
 	w.EDS = []*EDSDef{e}
 	cs := c06Case{ERSAgeSec: pick(r, 5, 60, 500, 655, 661, 665, 1195, 1201, 1300)}
@@ -202,6 +203,11 @@ func genC06(r *rand.Rand, tier string, idx int) *World {
 		ps.RestartAgoSec = pick(r, 5, 60, 121, 300, 601)
 		if ps.Kind == "cannotstart" {
 			ps.Waiting = pick(r, "ImagePullBackOff", "ErrImagePull", "CreateContainerConfigError", "PostStartHookError", "PodInitializing", "CrashLoopBackOff")
+		}
+		if side && chance(r, 0.6) {
+			// the less restarted container restarted more recently (or the other way round)
+			ps.SideRestarts = pick(r, int32(1), 1, apMax+1)
+			ps.SideRestartAgoSec = pick(r, 3, 20, 200, 900)
 		}
 		ps.StartAgoSec = pick(r, slow-3, slow-1, slow, slow+1, slow+3, 2*slow)
 		ps.AgeSec = ps.StartAgoSec + 10
